@@ -1,0 +1,149 @@
+//go:build verif
+// +build verif
+
+package gocql
+
+import (
+	"fmt"
+	"net"
+	"sync/atomic"
+)
+
+// This file is only compiled with the "verif" build tag. It exposes read-only views and
+// constructors that external runtime monitors need, and the perturbation hook. It does
+// not change the behaviour of the package.
+
+var verifHook atomic.Value // of func(string)
+
+// VerifSetHook installs (or, with nil, removes) the function called at every verifPoint.
+func VerifSetHook(f func(name string)) {
+	if f == nil {
+		f = func(string) {}
+	}
+	verifHook.Store(f)
+}
+
+func verifPoint(name string) {
+	if f, _ := verifHook.Load().(func(string)); f != nil {
+		f(name)
+	}
+}
+
+// VerifNewHostInfo builds a HostInfo the way the ring refresh does.
+func VerifNewHostInfo(hostID string, addr net.IP, port int, dc, rack string, tokens []string, up bool) *HostInfo {
+	h := &HostInfo{hostId: hostID, connectAddress: addr, port: port, dataCenter: dc, rack: rack, tokens: tokens}
+	if up {
+		h.state = NodeUp
+	} else {
+		h.state = NodeDown
+	}
+	return h
+}
+
+// VerifNewQuery returns a query that reports the given keyspace and routing key.
+func VerifNewQuery(keyspace string, routingKey []byte) *Query {
+	return &Query{routingKey: routingKey, getKeyspace: func() string { return keyspace }}
+}
+
+// VerifInitTokenAware wires a token-aware policy to a keyspace-metadata source, which
+// Init(*Session) would otherwise do.
+func VerifInitTokenAware(p HostSelectionPolicy, keyspace string, meta func(string) (*KeyspaceMetadata, error)) error {
+	t, ok := p.(*tokenAwareHostPolicy)
+	if !ok {
+		return fmt.Errorf("not a token aware policy: %T", p)
+	}
+	t.mu.Lock()
+	defer t.mu.Unlock()
+	t.getKeyspaceMetadata = meta
+	t.getKeyspaceName = func() string { return keyspace }
+	t.logger = &defaultLogger{}
+	return nil
+}
+
+func verifPartitioner(name string) (partitioner, error) {
+	tr, err := newTokenRing(name, nil)
+	if err != nil {
+		return nil, err
+	}
+	return tr.partitioner, nil
+}
+
+// VerifPartitionerHash returns the token (as string) the named partitioner computes for key.
+func VerifPartitionerHash(name string, key []byte) (string, error) {
+	p, err := verifPartitioner(name)
+	if err != nil {
+		return "", err
+	}
+	return p.Hash(key).String(), nil
+}
+
+// VerifTokenLess parses two token strings with the named partitioner and compares them.
+func VerifTokenLess(name, a, b string) (bool, error) {
+	p, err := verifPartitioner(name)
+	if err != nil {
+		return false, err
+	}
+	return p.ParseString(a).Less(p.ParseString(b)), nil
+}
+
+// VerifHashLess hashes two keys with the named partitioner and compares the tokens.
+func VerifHashLess(name string, a, b []byte) (bool, error) {
+	p, err := verifPartitioner(name)
+	if err != nil {
+		return false, err
+	}
+	return p.Hash(a).Less(p.Hash(b)), nil
+}
+
+// VerifReplicas is one entry of a replica map: the end token of a range and its replicas.
+type VerifReplicas struct {
+	Token string
+	Hosts []*HostInfo
+}
+
+// VerifReplicaMap computes the replica map for a keyspace over a ring of hosts exactly as
+// the token-aware policy does. strategy is false when the keyspace has no usable strategy.
+func VerifReplicaMap(ks *KeyspaceMetadata, partitioner string, hosts []*HostInfo) (out []VerifReplicas, strategy bool, err error) {
+	tr, err := newTokenRing(partitioner, hosts)
+	if err != nil {
+		return nil, false, err
+	}
+	strat := getStrategy(ks, &defaultLogger{})
+	if strat == nil {
+		return nil, false, nil
+	}
+	for _, ht := range strat.replicaMap(tr) {
+		out = append(out, VerifReplicas{Token: ht.token.String(), Hosts: ht.hosts})
+	}
+	return out, true, nil
+}
+
+// VerifRingLookup returns the host owning the range that contains the given token string.
+func VerifRingLookup(partitioner string, hosts []*HostInfo, tok string) (*HostInfo, string, error) {
+	tr, err := newTokenRing(partitioner, hosts)
+	if err != nil {
+		return nil, "", err
+	}
+	h, end := tr.GetHostForToken(tr.partitioner.ParseString(tok))
+	if end == nil {
+		return h, "", nil
+	}
+	return h, end.String(), nil
+}
+
+// VerifTokenAwareReplicas returns the replicas the policy currently associates with a token.
+func VerifTokenAwareReplicas(p HostSelectionPolicy, keyspace, tok string) ([]*HostInfo, error) {
+	t, ok := p.(*tokenAwareHostPolicy)
+	if !ok {
+		return nil, fmt.Errorf("not a token aware policy: %T", p)
+	}
+	meta := t.getMetadataReadOnly()
+	if meta == nil || meta.tokenRing == nil {
+		return nil, nil
+	}
+	ht := meta.replicas[keyspace].replicasFor(meta.tokenRing.partitioner.ParseString(tok))
+	if ht == nil {
+		return nil, nil
+	}
+	return ht.hosts, nil
+}
